@@ -3,5 +3,5 @@ CONSTANTS
   Tiny = TRUE
   WithOrders = FALSE
   SampleMod = 3
-INVARIANTS MergeMatchesUnion ValidAreAccepted RowsIndependent ExportInv
+INVARIANTS MergeMatchesUnion ValidAreAccepted RowsIndependent MixedAccepted MixedRowsIndependent ExportInv
 CHECK_DEADLOCK FALSE
